@@ -164,6 +164,8 @@ static void apply_env(jv *s)
     sk_child_exit(p, (int) j_int(s, "sig", 15));
   } else if (!strcmp(k, "cclose")) {
     sk_child_close(p, (int) j_int(s, "fd", 1));
+  } else if (!strcmp(k, "cstop")) {   /* the child is stopped (and continued before its next step) */
+    if (K->proc[p].state == PS_RUNNING) K->proc[p].stopped = 1;
   } else if (!strcmp(k, "cclosex")) { /* the child closes every descriptor above 2 it holds (incl. the exit handle) and keeps running */
     for (int fd = 3; fd < SK_MAXFD; fd++) sk_child_close(p, fd);
   } else if (!strcmp(k, "cread")) {
